@@ -18,7 +18,7 @@ RULE = ("Hypothesis generates polynomials A, B, C over M<=5 modes: 1-4 monomials
 ASSUMPTIONS = ["numpy Jordan-Wigner matrices (pbt/oracle.py)", "coefficients are dyadic so that every sum is exact (no near-ties around the 100*epsilon erasure threshold)"]
 CONFIG = {
     "quick": {"flavours": ["real", "complex"], "shards": 8, "examples": 1500, "min_nontrivial": 500, "budget_s": 120},
-    "thorough": {"flavours": ["real", "complex"], "shards": 16, "examples": 6000, "min_nontrivial": 10000, "budget_s": 3000},
+    "thorough": {"flavours": ["real", "complex", "fuzz"], "shards": 16, "examples": 6000, "min_nontrivial": 10000, "budget_s": 3000},
 }
 REQUIRED_CLASSES = {"quick": ["contraction", "equal-rewritten", "unequal", "commuting", "non-commuting", "long-monomial", "sz"],
                     "thorough": ["contraction", "equal-rewritten", "unequal", "commuting", "non-commuting", "long-monomial", "sz"]}
@@ -101,7 +101,24 @@ def from_actright(Mm, ans):
     return m, m2
 
 
+def pre_campaign(tier, seed):
+    """thorough tier: libFuzzer campaign on the in-process algebra target with its own bit-string oracle (engine/fuzz/fuzz_algebra.cpp)"""
+    if tier != "thorough":
+        return None
+    import drive
+    stats, crashes = drive.run_fuzzer("fuzz_algebra", seed, 600, workers=12, max_len=96)
+    failures = [{"case": {"kind": "fuzz-bytes", "target": "fuzz_algebra", "hex": c.hex()}, "detail": {"what": "libFuzzer algebra target trapped (oracle violation or sanitizer report)"},
+                 "signature": "fuzz-crash"} for c in crashes[:1]]
+    return {"failures": failures, "coverage": {"libfuzzer": stats}, "evaluations": stats["executions"], "nontrivial_hashes": [], "classes": {"libfuzzer-executions": stats["executions"]}}
+
+
 def execute(case, ctx):
+    if case.get("kind") == "fuzz-bytes":
+        import drive
+        crashed, err = drive.replay_fuzz(case["target"], bytes.fromhex(case["hex"]))
+        if crashed:
+            return Result("fail", ["fuzz"], True, {"what": "libFuzzer artifact reproduces", "stderr": err}, "fuzz-crash")
+        return Result("ok", ["fuzz"], False)
     Mm = case["M"]; cplx = case["cplx"]
     sc = M.Scenario()
     x = case["x"] if cplx else [case["x"][0], 0.0]
